@@ -155,4 +155,6 @@ def rule_created(ctx):
     ctx.floor('K13', 'paths assigning created', n, 2)
 
 
-RULES = [rule_guards, rule_one_guard, rule_created]
+from props.C14 import rule_serial_step, rule_abstract  # noqa: E402  (the ETag is session-serial: the serial must step at every change)
+
+RULES = [rule_guards, rule_one_guard, rule_created, rule_serial_step, rule_abstract]
